@@ -17,7 +17,9 @@ A KERNEL-ONLY REJECT (the model accepts what the kernel refuses) is a VIOLATION 
 must stay accepted by the model (no false reject bought by a correction); a false reject there is a VIOLATION too.
 
 spec/Verifier2.tla is spec/Verifier.tla (the model C05 uses, not edited here) plus the corrections found with this
-check, each marked `\\* X10:`.  X10_MODELS=Verifier,Verifier2 tabulates the original model as well (never gating);
+check, each marked `\\* X10:`.  The thorough tier (or X10_MODELS=VerifierT,Verifier2) tabulates the original model as
+well, never gating: spec/VerifierT.tla is Verifier.tla with a verdict "no verdict" where it cannot be evaluated;
+X10_SCALE=<factor> multiplies the number of mutants per program (hunting runs beyond the tiers);
 X10_SPEC_OVERRIDE=<file> replaces Verifier2.tla by a scratch copy (self-test of the check: weakenings of the model
 must show up as kernel-only rejects)."""
 import collections
@@ -76,7 +78,8 @@ def kernel_verdict(insns, fds):
         lines = [l for l in e.log.strip().splitlines() if l.strip()]
         while lines and re.match(r"(processed \d+ insns|verification time|stack depth|mark_precise|max_states)", lines[-1]):
             lines.pop()
-        return (lines[-1] if lines else f"errno {e.errno} (no log)")[:200]
+        loop = [l for l in lines if "infinite loop detected" in l or "back-edge" in l]
+        return (loop[-1] if loop else lines[-1] if lines else f"errno {e.errno} (no log)")[:200]
 
 
 def kernel_class(line):
@@ -167,6 +170,43 @@ def run_machine(ctx, wd, picked, tag):
     return [status.get(k) for k in range(len(cases))]
 
 
+# ---- hand-written witnesses ----------------------------------------------------------------------------------
+
+def witnesses():
+    """(label, bytecode, kernel accepts?): programs for corrections of Verifier2 that were derived from the kernel's
+    rules but are out of reach of a single edit of generator output (the original model accepts all of them)"""
+    from harness.fidelity import ins
+    exit0 = ins(0xb7, 0, 0, 0, 0) + ins(0x95)
+    guard = ins(0x61, 2, 1, 0) + ins(0x61, 3, 1, 4) + ins(0xbf, 4, 2) + ins(0x07, 4, 0, 0, 8) + ins(0x2d, 4, 3, 2, 0)
+    return [
+        ("packet pointer re-read from the context after the guard", guard + ins(0x61, 5, 1, 0) + ins(0x71, 0, 5, 0) + exit0, False),
+        ("copy of the guarded packet pointer (control)", guard + ins(0xbf, 5, 2) + ins(0x71, 0, 5, 0) + exit0, True),
+        ("open comparison end > pkt + 0 proves nothing",
+         ins(0x61, 2, 1, 0) + ins(0x61, 3, 1, 4) + ins(0x2d, 3, 2, 1, 0) + ins(0x05, 0, 0, 1) + ins(0x71, 0, 2, 0) + exit0, False),
+        ("subtraction from the frame pointer", ins(0xbf, 2, 10) + ins(0x17, 2, 0, 0, 8) + ins(0x7a, 2, 0, 0, 0) + exit0, False),
+        ("NEG with the register bit", ins(0xb7, 2, 0, 0, 1) + ins(0x8f, 2, 2) + exit0, False),
+        ("64-bit byte swap with a direction bit", ins(0xb7, 2, 0, 0, 1) + ins(0xdf, 2, 0, 0, 16) + exit0, False),
+        ("read of xdp_md.egress_ifindex", ins(0x61, 0, 1, 20) + ins(0x95), False),
+        ("32-bit arithmetic on xdp_md.data_meta", ins(0x61, 2, 1, 8) + ins(0x04, 2, 0, 0, 1) + exit0, False),
+        ("unreachable instruction", ins(0xb7, 0, 0, 0, 0) + ins(0x05, 0, 0, 1) + ins(0xb7, 0, 0, 0, 1) + ins(0x95), False),
+        ("range of a scalar does not survive a byte swap",
+         ins(0x62, 10, 0, -4, 0) + ins(0x18, 1, 1, 0, 1) + ins(0, 0, 0, 0, 0) + ins(0xbf, 2, 10) + ins(0x07, 2, 0, 0, -4)
+         + ins(0x85, 0, 0, 0, 1) + ins(0x55, 0, 0, 1, 0) + ins(0x95) + ins(0xb7, 2, 0, 0, 1) + ins(0xdc, 2, 0, 0, 64)
+         + ins(0x0f, 0, 2) + ins(0x71, 0, 0, 0) + exit0, False),
+        ("map value + bounded register (control)",
+         ins(0x62, 10, 0, -4, 0) + ins(0x18, 1, 1, 0, 1) + ins(0, 0, 0, 0, 0) + ins(0xbf, 2, 10) + ins(0x07, 2, 0, 0, -4)
+         + ins(0x85, 0, 0, 0, 1) + ins(0x55, 0, 0, 1, 0) + ins(0x95) + ins(0x71, 2, 0, 0) + ins(0x57, 2, 0, 0, 7)
+         + ins(0x27, 2, 0, 0, 4) + ins(0x0f, 0, 2) + ins(0x61, 0, 0, 0) + exit0, True),
+        ("map value + bounded register, one byte too far",
+         ins(0x62, 10, 0, -4, 0) + ins(0x18, 1, 1, 0, 1) + ins(0, 0, 0, 0, 0) + ins(0xbf, 2, 10) + ins(0x07, 2, 0, 0, -4)
+         + ins(0x85, 0, 0, 0, 1) + ins(0x55, 0, 0, 1, 0) + ins(0x95) + ins(0x71, 2, 0, 0) + ins(0x57, 2, 0, 0, 7)
+         + ins(0x27, 2, 0, 0, 4) + ins(0x0f, 0, 2) + ins(0x61, 0, 0, 1) + exit0, False),
+    ]
+
+
+WITNESS_MAPS = [dict(type="array", ks=4, vs=32, max=1)]
+
+
 # ---- the check ----------------------------------------------------------------------------------------------
 
 def select(ctx, items):
@@ -182,14 +222,16 @@ def select(ctx, items):
         if (seen[it["source"]] - 1) % step == 0:
             # the thorough corpus has about 4.5 times the programs; the few library / extra programs get more each
             out.append((it, cnt if ctx.quick else cnt * 8 if step == 1 else cnt * 2))
-    return out
+    scale = float(os.environ.get("X10_SCALE", "1"))             # exploration beyond the tiers (hunting runs)
+    return [(it, max(1, int(cnt * scale))) for it, cnt in out]
 
 
 def run(ctx):
     from checks import c05
     if not kernel.available():
         raise T.MachineryError("X10 compares the model with the kernel's verifier: bpf() is not usable here")
-    models = [m for m in os.environ.get("X10_MODELS", GATE).split(",") if m]
+    # the original model (made total: spec/VerifierT.tla) is tabulated beside the gating one in the thorough tier
+    models = [m for m in os.environ.get("X10_MODELS", GATE if ctx.quick else "VerifierT," + GATE).split(",") if m]
     if GATE not in models:
         models.append(GATE)
     wd = ctx.workdir()
@@ -221,7 +263,14 @@ def run(ctx):
         for cls, what, new in got:
             progs_.append(dict(kind="mutant", source=it["source"], label=it["label"], insns=new, maps=it["maps"],
                                h=vmutate.key(new, it["maps"]), edit=what, cls=cls, of=it["h"]))
-    note(ctx, f"{len(items)} programs, {len(progs_) - len(items)} mutants")
+    from harness import bpfdecode
+    nwit = 0
+    for label, code, ok in witnesses():
+        insns = bpfdecode.split(code)
+        progs_.append(dict(kind="witness", source="witness", label=label, insns=insns, maps=WITNESS_MAPS,
+                           h=vmutate.key(insns, WITNESS_MAPS), edit="hand-written", cls="witness", expect=ok))
+        nwit += 1
+    note(ctx, f"{len(items)} programs, {len(progs_) - len(items) - nwit} mutants, {nwit} witnesses")
     # 3. the kernel's verdict on everything
     mp = Maps()
     try:
@@ -229,6 +278,9 @@ def run(ctx):
             p["kernel"] = kernel_verdict(p["insns"], mp.fds(p["maps"]))
     finally:
         mp.close()
+    wrong = [p["label"] for p in progs_ if p["kind"] == "witness" and (p["kernel"] is None) != p["expect"]]
+    if wrong:
+        raise T.MachineryError(f"the kernel does not judge the hand-written witnesses as recorded: {wrong}")
     note(ctx, "kernel verdicts done")
     # 4. the models, one batched TLC run per chunk
     cases = [dict(programs=[p["insns"]], entry=1, maps=p["maps"]) for p in progs_]
@@ -243,7 +295,7 @@ def run(ctx):
     for m in models:
         verdict, errors = verdicts[m]
         tab = dict(both_accept=0, both_reject=0, model_only_reject=0, kernel_only_reject=0, model_error=0)
-        by_rule, by_class, ko = collections.Counter(), {}, []
+        by_rule, by_class, ko, noverdict = collections.Counter(), {}, [], []
         orig = dict(both_accept=0, both_reject=0, model_only_reject=0, kernel_only_reject=0, model_error=0)
         for k, p in enumerate(progs_):
             t = orig if p["kind"] == "original" else tab
@@ -258,24 +310,31 @@ def run(ctx):
                 cat = ("both_accept" if not mrej and krej is None else "both_reject" if mrej and krej is not None
                        else "model_only_reject" if mrej else "kernel_only_reject")
                 t[cat] += 1
-            if p["kind"] == "mutant":
+            if p["kind"] != "original":
                 by_class.setdefault(p["cls"], collections.Counter())[cat] += 1
                 if cat == "model_only_reject":
                     by_rule[verdict[k][0][0]] += 1
             if m == GATE:
                 p["cat"], p["model"] = cat, (errors.get(k) if k in errors else verdict[k])
-            if cat in ("kernel_only_reject", "model_error") or (cat == "model_only_reject" and p["kind"] == "original"):
+            if cat == "kernel_only_reject":
                 ko.append(k)
+            elif cat == "model_error" and p["kernel"] is not None:
+                noverdict.append(k)
         tables[m] = dict(mutants=tab, unmutated_corpus=orig, imprecision_by_model_rule=dict(by_rule.most_common()),
                          by_edit_class={c: dict(v) for c, v in sorted(by_class.items())},
                          model_error_kinds=dict(collections.Counter(str(e)[:11] for e in errors.values())),
                          kernel_only_by_kernel_message=dict(collections.Counter(
-                             kernel_class(progs_[k]["kernel"]) for k in ko
-                             if progs_[k]["kernel"] is not None).most_common(40)))
+                             kernel_class(progs_[k]["kernel"]) for k in ko).most_common(40)),
+                         kernel_only_by_edit_class=dict(collections.Counter(progs_[k]["cls"] for k in ko).most_common()),
+                         no_model_verdict_kernel_rejects_by_kernel_message=dict(collections.Counter(
+                             kernel_class(progs_[k]["kernel"]) for k in noverdict).most_common(12)))
         if m != GATE:
+            first = {}
+            for k in ko:                                   # one example per kernel message
+                first.setdefault(kernel_class(progs_[k]["kernel"]), k)
             tables[m]["kernel_only_examples"] = [
-                dict(program=progs_[k]["label"][:100], edit=progs_[k]["edit"], kernel=progs_[k]["kernel"],
-                     model=errors.get(k, "accepts")) for k in ko[:12]]
+                dict(source=progs_[k]["source"], program=progs_[k]["label"][:100], edit=progs_[k]["edit"],
+                     kernel=progs_[k]["kernel"]) for k in list(first.values())[:40]]
     # 6. judge with the gating model
     for k, p in enumerate(progs_):
         ctx.traces += 1
@@ -320,7 +379,9 @@ def run(ctx):
                 "bytecode; each judged by the kernel verifier and by the model over all paths; non-trivial = more than "
                 "6 instructions")
     ctx.extra.update(gating_model=GATE if not over else f"{GATE} replaced by {over}", programs=len(items),
-                     mutants=len(progs_) - len(items), tables=tables,
+                     mutants=len(progs_) - len(items) - nwit, witnesses=nwit,
+                     agreement=tables[GATE]["mutants"], imprecision_by_rule=tables[GATE]["imprecision_by_model_rule"],
+                     tables=tables,
                      machine=dict(run_on_both_accept_mutants=len(share), exited=len(share) - sum(faults.values()),
                                   other_status=dict(faults), examples=fault_examples[:12]),
                      observations=sum(faults.values()))
